@@ -808,14 +808,21 @@ impl MemoryLoc {
                     if self.offset != 0 {
                         addr = builder.ins().iadd_imm(addr, self.offset as i64);
                     }
+                    // only `size` bytes belong to the value: the padding up to `stride` can hold
+                    // a neighbouring field. `emit_small_memory_copy` wants the alignment to
+                    // divide the size, so it is lowered to the largest power of two that does
+                    let size = ty.size() as u64;
+                    if size == 0 {
+                        return;
+                    }
+                    let align = (ty.align() as u64).min(1 << size.trailing_zeros()) as u8;
                     builder.emit_small_memory_copy(
                         module.target_config(),
                         addr,
                         val,
-                        // this has to be stride for some reason, it can't be size
-                        ty.stride() as u64,
-                        ty.align() as u8,
-                        ty.align() as u8,
+                        size,
+                        align,
+                        align,
                         true,
                         MemFlags::trusted(),
                     )
@@ -826,7 +833,7 @@ impl MemoryLoc {
                     let mut off = 0;
                     macro_rules! mem_cpy_loop {
                         ($width:expr) => {
-                            while (off + $width) <= (ty.stride() as i32 / $width) * $width {
+                            while (off + $width) <= (ty.size() as i32 / $width) * $width {
                                 let bytes = builder.ins().load(
                                     cranelift::codegen::ir::Type::int_with_byte_size($width)
                                         .unwrap(),
@@ -872,12 +879,17 @@ impl MemoryLoc {
                 if self.offset != 0 {
                     addr = builder.ins().iadd_imm(addr, self.offset as i64);
                 }
+                let size = ty.size() as u64;
+                if size == 0 {
+                    return;
+                }
+                let align = (ty.align() as u64).min(1 << size.trailing_zeros()) as u8;
                 builder.emit_small_memset(
                     module.target_config(),
                     addr,
                     val,
-                    ty.size() as u64,
-                    ty.align() as u8,
+                    size,
+                    align,
                     MemFlags::trusted(),
                 );
             }
@@ -887,10 +899,10 @@ impl MemoryLoc {
                 let mut off = 0;
                 macro_rules! mem_cpy_loop {
                     ($width:expr) => {
-                        while (off + $width) <= (ty.stride() as i32 / $width) * $width {
+                        while (off + $width) <= (ty.size() as i32 / $width) * $width {
                             let val = builder.ins().iconst(
-                                cranelift::codegen::ir::Type::int_with_byte_size(8).unwrap(),
-                                val as i64,
+                                cranelift::codegen::ir::Type::int_with_byte_size($width).unwrap(),
+                                i64::from_ne_bytes([val; 8]) & (u64::MAX >> (64 - 8 * $width)) as i64,
                             );
                             builder
                                 .ins()
